@@ -68,6 +68,9 @@ def render(c, key, gen):
     if gen == "lt_const":
         gdecl, guse = "<'a, const N: usize>", "<'static, 3>"
         phantom = "PhantomData<&'a [u8; N]>"
+    elif gen == "const_only":
+        # a const parameter need not be used: the enum keeps its shape (still field-less when it was)
+        gdecl, guse = "<const N: usize>", "<3>"
     elif gen == "type":
         gdecl, guse = "<T>", "<u16>"
         phantom = "PhantomData<T>"
@@ -76,20 +79,21 @@ def render(c, key, gen):
         phantom = "PhantomData<T>"
     decl = []
     ctor, pats = [], []
+    tf = "<3>::" if gen == "const_only" else ""
     for i, v in enumerate(vs):
         d = "" if v["disc"]["op"] == "none" else " = " + expr_text(v["disc"])
         k = v["kind"]
         if k == "unit":
             decl.append(f"{names[i]}{d}")
-            ctor.append(f"En::{names[i]}")
+            ctor.append(f"En::{tf}{names[i]}")
             pats.append(f"En::{names[i]}")
         elif k == "empty_tuple":
             decl.append(f"{names[i]}(){d}")
-            ctor.append(f"En::{names[i]}()")
+            ctor.append(f"En::{tf}{names[i]}()")
             pats.append(f"En::{names[i]}()")
         elif k == "empty_brace":
             decl.append(f"{names[i]}{{}}{d}")
-            ctor.append(f"En::{names[i]}{{}}")
+            ctor.append(f"En::{tf}{names[i]}{{}}")
             pats.append(f"En::{names[i]}{{}}")
         elif k == "tuple1":
             decl.append(f"{names[i]}(u8){d}")
@@ -162,12 +166,12 @@ def run(chk, tier, seed, replay):
     chk.cov["exhaustive"] = not replay
     mods = []
     meta = {}
-    gens = ["", "lt_const", "type", "where"]
+    gens = ["", "lt_const", "type", "where", "const_only"]
     for c in cases:
         base = key_of(c)
         # generic variants of the same enum: a seeded share (all of them in the thorough tier for small enums)
         for g in gens:
-            if g and any(v["disc"]["op"] != "none" for v in c["vs"]) and not any(h in BITS for a in c["attrs"] for h in a):
+            if g and g != "const_only" and any(v["disc"]["op"] != "none" for v in c["vs"]) and not any(h in BITS for a in c["attrs"] for h in a):
                 continue   # the extra variant carrying the parameters has a field: explicit discriminants need an int repr
             if g:
                 share = (12 if tier == "quick" else 4) * (1 if len(c["vs"]) < 3 else 40)
